@@ -216,9 +216,11 @@ class Negotiated:
             # therefore we can not collide due to the way we generate the configuration
 
             for capa in sent_ms_capa:
-                # no need to check that the capability exists, we generated it
+                # no need to check that we sent the capability, we generated it
                 # checked it is what we sent and only send MULTIPROTOCOL
-                if sent_capa[capa] != recv_capa[capa]:
+                # the peer chooses what it sends: a MULTISESSION capability without the
+                # MULTIPROTOCOL one it is grouped on was a KeyError here, not a NOTIFICATION
+                if capa not in recv_capa or sent_capa[capa] != recv_capa[capa]:
                     self.multisession = (
                         2,
                         8,
